@@ -4,7 +4,7 @@ import os
 import re
 from .. import core
 
-DEV = dict(D_InPlaceAppend=False, D_LazyFallbackInit=False, D_EarlyPut=False, D_PutBeforeHook=False, D_RedispatchPuts=False)
+DEV = dict(D_InPlaceAppend=False, D_LazyFallbackInit=False, D_EarlyPut=False, D_PutBeforeHook=False, D_HookPathPuts=False, D_RedispatchPuts=False)
 
 
 def scfg(reqs, kinds, shape, emit=True, invs=("NoInterference", "NoSharedCtx", "NoModelRace"), **dev):
@@ -106,6 +106,8 @@ def run(chk):
         triples = [("a", "b", "a"), ("a", "b", "nf")] if thorough else [("a", "b", "a")]
         for kinds in triples:
             schedules(chk, ["r1", "r2", "r3"], kinds, (3, 4, 0, 0), fo, sample_every=1 if thorough else 4)
+        # a recovered panic FIRST, then two requests in flight together: the context of the panicked request is in the pool once
+        schedules(chk, ["r1", "r2", "r3"], ("p", "a", "b"), (1, 1, 0, 0), fo, sample_every=1 if thorough else 3)
     s = core.run_harness(["serve", "replay", out], timeout=3000, env={"VERIF_SEED": chk.seed})
     chk.absorb(s, "serve")
     os.remove(out)
@@ -115,7 +117,8 @@ def run(chk):
                                   ("D_LazyFallbackInit", (0, 0, 0, 0), ("nf", "nf"), "NoModelRace"),
                                   ("D_RedispatchPuts", (1, 1, 0, 0), ("rd", "a"), "NoSharedCtx"),
                                   ("D_EarlyPut", (1, 1, 0, 0), ("a", "b"), "NoSharedCtx"),
-                                  ("D_PutBeforeHook", (1, 1, 0, 0), ("p", "a"), "NoSharedCtx")][: 6 if thorough else 3]:
+                                  ("D_PutBeforeHook", (1, 1, 0, 0), ("p", "a"), "NoSharedCtx"),
+                                  ("D_HookPathPuts", (1, 1, 0, 0), ("p", "a"), "NoSharedCtx")][: 7 if thorough else 3]:
         r = core.run_tlc("MC_Serve", cfg_text=scfg(["r1", "r2"], kinds, shape, emit=False, invs=(inv,), **{sw: True}), timeout=300)
         chk.expect_fails(r, "MC_Serve[%s %s]" % (sw, shape), inv)
     stress(chk, 40 if thorough else 8)
